@@ -189,6 +189,9 @@ pub struct Run {
     /// container looks like to num_cpus: default pipeline widths become 1).
     pub one_cpu: Option<usize>,
     pub blockdev: Option<PathBuf>,
+    /// Estimated peak memory in MB charged to the memory gate (None: derived from the
+    /// command line, see `compress_weight_mb`).
+    pub mem_weight_mb: Option<u64>,
     pub rlimit_cpu_s: Option<u64>,
     pub rlimit_as: Option<u64>,
     pub rlimit_fsize: Option<u64>,
@@ -232,6 +235,7 @@ impl Run {
             workers: None,
             one_cpu: None,
             blockdev: None,
+            mem_weight_mb: None,
             rlimit_cpu_s: Some(120),
             rlimit_as: None,
             rlimit_fsize: None,
@@ -299,6 +303,115 @@ pub fn shim_path() -> PathBuf {
     std::env::var_os("IOMON_SO")
         .map(PathBuf::from)
         .unwrap_or_else(|| crate::util::verif_root().join(".build/iomon.so"))
+}
+
+// ---------------------------------------------------------------------------------------
+// Memory gate. `bita compress` keeps one encoder context per in-flight chunk, and zstd's
+// contexts at the highest levels are huge (measured here: level 19 ~100 MB, 20 ~200 MB,
+// 21 ~400 MB, 22 ~700-800 MB per context; the default pipeline is 2 x cores wide, so one
+// default-width zstd-22 run peaks at 16-20 GB). The harness runs cases on all cores; two
+// or three such runs at once push a 62 GB machine without swap into page reclaim, the
+// children then burn their whole CPU-time rlimit in the kernel and die of SIGXCPU -- a
+// limit of the harness, not a behaviour of the program. Every child is therefore charged an
+// estimate of its peak memory against a budget (40 % of MemTotal, at most half of
+// MemAvailable when the check starts) before it is started, in
+// FIFO order so that a heavy run cannot starve; nothing about the child itself changes.
+struct Gate {
+    in_flight_mb: u64,
+    next_ticket: u64,
+    serving: u64,
+}
+static GATE: std::sync::Mutex<Gate> = std::sync::Mutex::new(Gate { in_flight_mb: 0, next_ticket: 0, serving: 0 });
+static GATE_CV: std::sync::Condvar = std::sync::Condvar::new();
+
+pub fn mem_budget_mb() -> u64 {
+    static B: std::sync::OnceLock<u64> = std::sync::OnceLock::new();
+    *B.get_or_init(|| {
+        // VERIF_MEM_BUDGET_MB overrides (a very large value switches the gate off)
+        if let Some(v) = std::env::var("VERIF_MEM_BUDGET_MB").ok().and_then(|v| v.parse::<u64>().ok()) {
+            return v.max(1);
+        }
+        let info = std::fs::read_to_string("/proc/meminfo").unwrap_or_default();
+        let field = |name: &str| -> Option<u64> {
+            info.lines()
+                .find(|l| l.starts_with(name))
+                .and_then(|l| l.split_whitespace().nth(1).and_then(|v| v.parse::<u64>().ok()))
+                .map(|kb| kb / 1024)
+        };
+        let total = field("MemTotal:").unwrap_or(8 * 1024);
+        let avail = field("MemAvailable:").unwrap_or(total);
+        // 40 % of the machine, and never more than half of what is free right now
+        (total * 2 / 5).min(avail / 2).max(1024)
+    })
+}
+
+pub struct MemGuard(u64);
+
+impl Drop for MemGuard {
+    fn drop(&mut self) {
+        if self.0 > 0 {
+            let mut g = GATE.lock().unwrap_or_else(|e| e.into_inner());
+            g.in_flight_mb = g.in_flight_mb.saturating_sub(self.0);
+            GATE_CV.notify_all();
+        }
+    }
+}
+
+/// Wait until `weight_mb` fits into the budget (a weight above the whole budget runs alone).
+pub fn mem_gate(weight_mb: u64) -> MemGuard {
+    if weight_mb == 0 {
+        return MemGuard(0);
+    }
+    let budget = mem_budget_mb();
+    let w = weight_mb.min(budget);
+    let mut g = GATE.lock().unwrap_or_else(|e| e.into_inner());
+    let ticket = g.next_ticket;
+    g.next_ticket += 1;
+    let t0 = Instant::now();
+    while !(g.serving == ticket && g.in_flight_mb + w <= budget) {
+        g = GATE_CV.wait(g).unwrap_or_else(|e| e.into_inner());
+    }
+    if std::env::var_os("VERIF_GATE_DEBUG").is_some() && (w >= 1000 || t0.elapsed() > Duration::from_millis(200)) {
+        eprintln!("mem-gate: weight {} MB admitted after {:.1?} with {} MB in flight (budget {} MB)", w, t0.elapsed(), g.in_flight_mb, budget);
+    }
+    g.serving += 1;
+    g.in_flight_mb += w;
+    GATE_CV.notify_all();
+    MemGuard(w)
+}
+
+/// Measured peak memory (MB, rounded up) of one encoder context.
+pub fn codec_ctx_mb(codec: &str, level: u64) -> u64 {
+    match (codec, level) {
+        ("zstd", 22..) => 800,
+        ("zstd", 21) => 400,
+        ("zstd", 20) => 200,
+        ("zstd", 16..=19) => 110,
+        ("zstd", _) => 40,
+        ("lzma", _) => 25,
+        _ => 8,
+    }
+}
+
+/// Estimated peak memory (MB) of a `bita compress` command line; 0 for everything else.
+pub fn compress_weight_mb(args: &[String], asan: bool, one_cpu: bool) -> u64 {
+    if args.first().map(|a| a != "compress").unwrap_or(true) {
+        return 0;
+    }
+    let val = |name: &str| -> Option<&str> {
+        args.iter().position(|a| a == name).and_then(|i| args.get(i + 1)).map(|v| v.as_str())
+    };
+    let codec = val("--compression").unwrap_or("brotli").to_ascii_lowercase();
+    let level = val("--compression-level").and_then(|v| v.parse::<u64>().ok()).unwrap_or(6);
+    let per_ctx = codec_ctx_mb(&codec, level);
+    let default_width = if one_cpu { 1 } else { 2 * crate::util::ncpu() as u64 };
+    let width = val("--buffered-chunks").and_then(|v| v.parse::<u64>().ok()).unwrap_or(default_width).clamp(1, default_width.max(1));
+    let w = per_ctx * width + 30;
+    if asan {
+        w * 5 / 4 + 100
+    } else {
+        w
+    }
 }
 
 pub fn run(r: &Run) -> Outcome {
@@ -424,6 +537,7 @@ pub fn run(r: &Run) -> Outcome {
             Ok(())
         });
     }
+    let _mem = mem_gate(r.mem_weight_mb.unwrap_or_else(|| compress_weight_mb(&r.args, r.bin == Bin::Asan, r.one_cpu.is_some())));
     let start = Instant::now();
     let mut child = match cmd.spawn() {
         Ok(c) => c,
